@@ -401,6 +401,21 @@ func c02Read(c *Ctx, v *variants.Variant, rule string) {
 		if invalid != reported {
 			bad = append(bad, fmt.Sprintf("invalid-encoding error recorded=%t on the path [%s] (expected exactly for RuneError of width 1 without AllowInvalidUTF8)", reported, strings.Join(p.facts(), " ")))
 		}
+		// nothing else decides: every fact of the path is about the decoded rune, its width or the option
+		for _, f := range p.facts() {
+			okF := true
+			for _, d := range splitTop(f, "||") {
+				for _, cj := range splitTop(d, "&&") {
+					cj = strings.TrimPrefix(cj, "!")
+					if !(strings.HasPrefix(cj, "res0("+dec+")") || strings.HasPrefix(cj, "res1("+dec+")") || cj == "p.allowInvalidUTF8") {
+						okF = false
+					}
+				}
+			}
+			if !okF {
+				bad = append(bad, "what read() does depends on `"+abbreviate(f)+"`: an invalid byte must be reported every time it is read (backtracking may have discarded the earlier report) and the position accounting depends on the decoded rune alone")
+			}
+		}
 	}
 	if len(paths) == 0 {
 		bad = append(bad, "no paths")
